@@ -522,9 +522,7 @@ Verdict check_nan(const J& rec) {
   auto listed = [&](int j) -> std::string {
     (void)j;
     if (rn == "Intersect::Next") return "F12-Intersect-Next-NaN";
-    // F11: 05cbde4 repaired RG(NaN, y) only; RG(x, NaN) is still finite (std::max/min keep the first operand)
-    if (rn == "EllipticFunction::RG2" && i == 1) return "F11-RG-NaN";
-    // fixed in /repo since: F13 Authalic diff e1d3ad6 (no guard: a regression fails)
+    // fixed in /repo since: F11 RG NaN 05cbde4 + 73e834b, F13 Authalic diff e1d3ad6 (no guard: a regression fails)
     return "";
   };
   for (int j = 0; j < r->nd; ++j) {
